@@ -797,6 +797,7 @@ def run(repo, rep):
     p4, p5 = [], []
     seen_cmd = seen_data = False
     data_seen_on_path = False
+    src_undecided = []
     frag_calls = [e_.args for e_, _s in c.log if e_.kind in ('fragment', 'fragment_file') and e_.args]
 
     def _foldflag(t):
@@ -829,6 +830,18 @@ def run(repo, rep):
                         p4.append('data set fragmented with flags %s, PS3.8 E.2: %s' % (flags, DATA_FLAGS))
                     if not any(c_ in ('+self.data_set', '+self._data_set') for c_ in ev.conds):
                         p5.append('data fragments produced without testing that a data set is present')
+                    # what is fragmented is the data set as the user handed it over: the bytes themselves, or the stream from
+                    # its current position (what the file fragmenter reads; a stream opened past a preamble stays past it)
+                    D_ = ('self.data_set', 'self._data_set')
+                    src_ok = src in D_ or src in tuple(d_ + '.read()' for d_ in D_) or src in tuple(d_ + '.read(-1)' for d_ in D_) \
+                        or src in tuple('%s(%s)' % (w_, d_) for w_ in ('bytes', 'memoryview', 'bytearray') for d_ in D_)
+                    if not src_ok:
+                        snap = [a_ for a_ in ('getvalue', 'getbuffer') if any(src == '%s.%s()' % (d_, a_) or src.startswith('%s.%s()' % (d_, a_)) for d_ in D_)]
+                        if snap:
+                            p5.append('the data fragments are cut from %s: %s() returns the whole buffer whatever the position of the stream, '
+                                      'the file fragmenter (and read()) start at the position the user left it at' % (src, snap[0]))
+                        else:
+                            src_undecided.append(src)
                 else:
                     p4.append('fragmenter applied to %s' % src)
                 if ev.args[1] != max_param:
@@ -932,6 +945,9 @@ def run(repo, rep):
     if not any(_payload_kind(e_, s_) == 'command' for e_, s_ in c.log if e_.kind == 'yield') or \
             not any(_payload_kind(e_, s_) == 'data' for e_, s_ in c.log if e_.kind == 'yield'):
         p5.append('encode does not yield both command-set and data-set PDUs')
+    if src_undecided and not p5:
+        rep.undecided('C06.S5', '%s: the data fragments are cut from %s, a form of the data set the source rule does not know'
+                      % (enc.loc(), ', '.join(sorted(set(src_undecided)))))
     rep.check(not p4, 'C06.S4', 'dimsemessages:DIMSEMessage.encode:flag-literals', enc.loc(),
               'command (1,3), data (0,2) for bytes and file data sets', '; '.join(sorted(set(p4))))
     rep.check(not p5, 'C06.S5', 'dimsemessages:DIMSEMessage.encode:order-context', enc.loc(),
